@@ -212,6 +212,7 @@ impl StorageEngine {
         }
         
         let stored_value = StoredValue::new(Value::String(value));
+        shard_guard.expiring_keys.remove(&key);
         shard_guard.data.insert(key.clone(), stored_value);
         shard_guard.mark_modified(&key);
         
